@@ -40,7 +40,8 @@ def explore(res, rng, n):
         if ok != '1':
             fail(res, 'hard-coded table violates the moment conditions', {'n': int(nn), 'order': int(m)}, None)
     # ---- general weights vs the exact rational solution
-    combos = [(m, k) for m in (3, 5, 7, 9, 11) for k in range(1, m) if k <= 4]
+    # (up to 21 points: the Vandermonde system then holds 10**20; the float solve is still good to 1e-9 of the largest weight)
+    combos = [(m, k) for m in (3, 5, 7, 9, 11, 13, 17, 21) for k in range(1, m) if k <= 4]
     for (m, k), a in zip(combos, core.driver_batch([f'c20weights {m} {k}' for m, k in combos])):
         res.evaluations += 1
         res.traces += 1
@@ -49,6 +50,8 @@ def explore(res, rng, n):
             res.disagreements.append({'what': 'exact solver failed its own moment check', 'input': [m, k], 'model': a})
             continue
         exact = [Fraction(t) for t in toks[1:]]
+        import warnings
+        warnings.simplefilter('ignore')            # (scipy warns about the conditioning of the large systems)
         w = utils.centralDiffWeights(m, k)
         # the caller may scale the weights in place (w /= h**n, as in the documentation): a later call is not affected by that
         w_first = np.array(w, dtype=float)
